@@ -169,8 +169,14 @@ def run(ctx) -> None:
                     for a in ancestors(n):
                         if isinstance(a, ast.For) and isinstance(a.target, ast.Name) and a.target.id == vals[1].id:
                             k_ = len([q for q in domains if q.startswith(f.qname + "#")])
-                            domains[f"{f.qname}#{k_}"] = (src(a.iter), f"{f.module.rel}:{a.lineno}")
-    per_node = {q: d for q, d in domains.items() if ".get(" in d[0] or "attrs[" in d[0]}
+                            it_ = a.iter
+                            key = None
+                            if isinstance(it_, ast.Call) and isinstance(it_.func, ast.Attribute) and it_.func.attr == "get" and it_.args and isinstance(it_.args[0], ast.Constant):
+                                key = f"<node attrs>.get({it_.args[0].value!r})"
+                            elif isinstance(it_, ast.Subscript) and isinstance(it_.slice, ast.Constant):
+                                key = f"<node attrs>.get({it_.slice.value!r})"
+                            domains[f"{f.qname}#{k_}"] = (key or src(it_), f"{f.module.rel}:{a.lineno}")
+    per_node = {q: d for q, d in domains.items() if d[0].startswith("<node attrs>")}
     if len(per_node) < 3:
         raise AnalysisError(f"only {len(per_node)} data-node id builders that iterate a node attribute found")
     kinds = {d[0] for d in per_node.values()}
